@@ -13,6 +13,9 @@ VALUE_PRESERVING = [
     r"clone::Clone::clone$", r"ops::Deref::deref$", r"ops::DerefMut::deref_mut$", r"convert::AsRef::as_ref$",
     r"borrow::Borrow::borrow$", r"borrow::ToOwned::to_owned$", r"Option::<T>::as_ref$", r"Option::<T>::as_deref$",
     r"string::String::as_str$", r"string::String::as_mut_str$",
+    # the same text in another string type
+    r"string::ToString::to_string$", r"^<std::string::String as std::convert::From<&[^>]*str>>::from$", r"^<std::string::String as std::convert::From<&[^>]*std::string::String>>::from$",
+    r"str::<impl str>::to_owned$", r"str::<impl str>::to_string$",
 ]
 
 
@@ -102,6 +105,22 @@ def access_path(fn, x, transparent=(), depth=64):
             root = ("param", l)
             break
         ds = defs.get(l, [])
+        if len(ds) > 1:
+            # `(x as Ok).0` never reads a definition that built x as `Err(..)` (a value built as one variant is never read as another)
+            fields = [e for e in proj if e != "*"]
+            if fields and isinstance(fields[0], dict) and "dc" in fields[0]:
+                want = _elem(fields[0])
+
+                def other_variant(d):
+                    if d[1] == "call" and (d[2].get("callee") or "").endswith("FromResidual::from_residual") and not d[2]["dest"]["p"]:
+                        return want in SUCC      # `return Err(e)?`-style residual: never the success case
+                    if d[1] != "assign" or d[2]["pl"]["p"] or d[2]["rv"]["rv"] != "agg" or d[2]["rv"].get("agg") != "adt" or not d[2]["rv"].get("variant"):
+                        return False
+                    have = "as " + str(d[2]["rv"]["variant"])
+                    return not (want == have or (want in SUCC and have in SUCC) or (want in FAIL and have in FAIL))
+                keep = [d for d in ds if not other_variant(d)]
+                if len(keep) == 1:
+                    ds = keep
         if len(ds) != 1:
             root = ("local", l)
             break
@@ -132,6 +151,17 @@ def access_path(fn, x, transparent=(), depth=64):
                         (rv.get("agg") in ("tuple", "closure", "coroutine") or (fn.facts.adts.get(rv.get("adt"), {}).get("kind") == "struct")):
                     op = rv["ops"][fields[0]["f"]]
                     rest = fields[1:]
+                    if op.get("k") not in ("copy", "move"):
+                        root = ("const", l, op)
+                        proj = rest
+                        break
+                    proj = list(op["pl"]["p"]) + rest
+                    l = op["pl"]["l"]
+                elif rv.get("agg") == "adt" and rv.get("variant") and len(fields) > 1 and isinstance(fields[0], dict) and "dc" in fields[0] and \
+                        _elem(fields[0]) == "as " + str(rv["variant"]) and isinstance(fields[1], dict) and "f" in fields[1] and fields[1]["f"] < len(rv["ops"]):
+                    # the payload of an enum value built here as that very variant: (Ok(v) as Ok).0 is v
+                    op = rv["ops"][fields[1]["f"]]
+                    rest = fields[2:]
                     if op.get("k") not in ("copy", "move"):
                         root = ("const", l, op)
                         proj = rest
@@ -354,12 +384,14 @@ def outermost_fn(ds, f):
 
 def closure_site(facts, clo):
     """(parent Fn, bb, aggregate statement) building the closure / coroutine `clo`."""
-    par = facts.F.get(clo.raw.get("parent"))
-    if par is None:
-        return None
-    for bb, i, st in par.stmts():
-        if st["rv"]["rv"] == "agg" and st["rv"].get("def") == clo.raw["id"]:
-            return par, bb, st
+    pid = clo.raw.get("parent")
+    pars = [facts.F[pid]] if pid in facts.F else []
+    # closures of a helper that was inlined are built in the function the helper was inlined into
+    pars += [g for g in facts.F.values() if pid in g.raw.get("inlined", []) and g not in pars]
+    for par in pars:
+        for bb, i, st in par.stmts():
+            if st["rv"]["rv"] == "agg" and st["rv"].get("def") == clo.raw["id"]:
+                return par, bb, st
     return None
 
 
